@@ -179,6 +179,10 @@ class Theory:
 
         self.add_data("theorems", name, th)
 
+        # If a theorem of this name is replaced, its cached version with
+        # schematic variables (see get_theorem) is out of date.
+        self.get_data("theorems_svar").pop(name, None)
+
     def has_theorem(self, name):
         """Returns whether the current theory contains the given theorem."""
         data = self.get_data("theorems")
